@@ -246,8 +246,8 @@ func (e *Engine) callEffects(fc *FnCtx, c *ast.CallExpr) callEff {
 			return callEff{heap: heap, objs: true}
 		}
 	}
-	if oc := fc.findOnCall(name, pkgPath, kind, false); oc != nil {
-		return callEff{}
+	if oc := fc.findOnCall(name, pkgPath, kind, false, c); oc != nil {
+		return callEff{heap: !oc.NoHavoc, objs: !oc.NoHavoc}
 	}
 	return callEff{heap: true, objs: true}
 }
@@ -440,11 +440,9 @@ func (fc *FnCtx) scanAddrTaken() {
 			return false
 		case *ast.UnaryExpr:
 			if x.Op == token.AND {
-				if id, ok := unparen(x.X).(*ast.Ident); ok {
-					if o := fc.pkg.TypesInfo.Uses[id]; o != nil {
-						fc.addrTaken[o] = true
-					}
-				}
+				// &local: the local is boxed into an object when the address is taken (see addressOf); only a
+				// call that receives the pointer may change it (pointers to locals are assumed not to be retained)
+				_ = x
 			}
 		}
 		return true
